@@ -12,8 +12,10 @@ CLAIM = dict(
     text="Machine-checked theorems (coq/Props/C04.v, closed under the global context): for Gillespie_SIR and Gillespie_SIS, for EVERY graph, rates, weights, "
          "initial sets, tmin/tmax and EVERY draw script, the returned rows start at tmin, have non-decreasing times strictly below tmax, are censuses of a status "
          "map (non-negative, summing to N), consecutive rows differ by exactly one legal move, SIR moves never raise S or lower R, an unbounded run with positive "
-         "recovery rates ends without infected nodes, and no run ends in a Python-level failure. The other simulators are covered as their models are built "
-         "(evidence lists which). Tie: per-simulator extracted-model/implementation correspondence; search: a Python well-formedness oracle on every simulator's arrays.",
+         "recovery rates ends without infected nodes, and no run ends in a Python-level failure. The same is proved for the event-driven fast_nonMarkov_SIR / fast_SIR loop "
+         "(coq/Props/C04esir.v: for every tie policy the rows are a `traj`, the running census of the run's event log; first row as requested for the code's heap order) "
+         "and its decidable checker wf_trajb (proved sound, accepted on every model run) is extracted and applied to the implementation's own arrays. "
+         "The other simulators are covered as their models are built (evidence lists which). Tie: per-simulator extracted-model/implementation correspondence; search: a Python well-formedness oracle on every simulator's arrays.",
     design='DESIGN.md section 4, C04',
     technique='Coq proof (trajectory invariant by induction over the event loop, for every draw script) + extracted-model/implementation correspondence + output oracle',
     note="Simulator by simulator: the theorem list in the evidence says which simulators are proved; for the others this check runs the output oracle and their own correspondence only.")
@@ -64,6 +66,8 @@ def run(run, tier):
     # --- other simulator libraries, as they are built
     from . import xsim
     xsim.run_others(run, 'C04', EoN, sim, tier, per, total, 'wf_traj')
+    from . import esirx
+    esirx.part(run, tier, 'C04', props, per)
     if not props['ok']:
         run.violation('C04/proof', 'Props/C04.v no longer checks: %s' % props['log'][-400:], {'broken': 'coq/Props/C04.v', 'log': props['log']}, no_input=True)
     C.proof_coverage(run, props, total.n, min(len(total.distinct), total.nontrivial),
@@ -73,6 +77,9 @@ def run(run, tier):
 
 
 def replay(rp):
+    if rp['replay'].get('checker'):
+        from . import esirx
+        return esirx.replay(rp)
     from . import gil_lib as GL
     j = rp['replay']
     if j.get('entry', '').startswith('Gillespie'):
